@@ -335,3 +335,22 @@ REGISTRY["C09"] = {
         M("c09_gatherer_accounting", "whole function; arbitrary counters and status", "at most one of ok/errors is written per message, each as old+1; the message is pushed to the response log on every path", BS[:1], prop="c09", which="gatherer"),
     ],
 }
+
+REGISTRY["C20"] = {
+    "engine": "mir",
+    "technique": "symbolic execution of the MIR of Config::generate_config_messages into SMT (z3 + cvc5), listener loop unrolled, rustc's overflow checks as obligations",
+    "level_text": "The real compiled MIR of generate_config_messages is unrolled (TCP-listener loop 300 times quick / 600 thorough, symbolic list length through the uninterpreted Iterator::next results) and z3 and cvc5 both decide that none of the `count += 1` overflow checks can fail, i.e. the CONFIG-n ids stay strictly increasing and therefore distinct. Bounded: up to N TCP listeners and no other entry kind.",
+    "level_note": "TOML parsing, defaults, 'exactly what the file declares', idempotent reload and the load-time constraint checks are string/container transformations through toml/serde and are outside the claim. Other list kinds share the same counter and increment statement shape but are unrolled 0 times.",
+    "rule": "C20: one obligation (id counter).",
+    "trusted_base": [],
+    "assumptions": ["Iterator::next on a slice iterator returns Some for as many iterations as the solver likes (list length symbolic, up to the unrolling bound)"],
+    "residual": "declared == loaded (toml/serde), constraint-violating neighbours rejected at load time, reload idempotence, lists other than tcp_listeners, more than 600 entries.",
+    "obligations": [
+        M("c20_message_ids_do_not_wrap_tcp_add", "AddTcpListener loop unrolled 300x (thorough 600x), other loops 0x; list length symbolic",
+          "no `count += 1` overflow check can fail: message ids CONFIG-0..n are strictly increasing, hence unique", ["command/src/config.rs"], prop="c20", unroll=300, unroll_thorough=600, loop_type="TcpListenerConfig", loop_ordinal=0),
+        M("c20_message_ids_do_not_wrap_http_add", "AddHttpListener loop unrolled 300x (thorough 600x), other loops 0x",
+          "same, for HTTP listeners", ["command/src/config.rs"], prop="c20", unroll=300, unroll_thorough=600, loop_type="HttpListenerConfig", loop_ordinal=0),
+        M("c20_message_ids_do_not_wrap_tcp_activate", "ActivateListener(tcp) loop unrolled 300x (thorough 600x), other loops 0x",
+          "same, for the activation messages", ["command/src/config.rs"], prop="c20", unroll=300, unroll_thorough=600, loop_type="TcpListenerConfig", loop_ordinal=1),
+    ],
+}
